@@ -632,6 +632,7 @@ def replay_script(lines: list[str], monitors=(), valid_flags=None):
             k += 1
             e = sess.op(ln[3:], valid=v)
             if e is not None and type(e).__name__ not in ('ValueError', 'UserWarning'):
+                sess.crashed = True
                 break
         elif ln.startswith('can '):
             sess.can(ln[4:])
